@@ -36,6 +36,8 @@ def collect(ctx):
             d["expjson"] = vlib.unesc(r[2]) if len(r) > 2 else ""
         elif k == "EXPSTR":
             d["expstr"] = vlib.unesc(r[2]) if len(r) > 2 else ""
+        elif k == "CORPUS":
+            d["corpus"] = vlib.unesc(r[3]) if r[2] == "out" and len(r) > 3 else None
         elif k == "EXPECTREJECT":
             d["expect_reject"] = r[2]
         elif k == "SRC":
@@ -178,6 +180,7 @@ def run(ctx):
     gc = c01.gocheck(ctx, [f"{pid}\t{d['stages']['go']}" for pid, d in gen.items() if "go" in d["stages"]])
 
     streams = collections.Counter()
+    n_nonfinite_wellformed = 0
     n_ok = n_l1 = n_l1_ok = n_core_ok = n_json_lines = n_json_ok = n_str = n_str_ok = n_reader_agree = n_reader = 0
     samples, distinct = [], set()
     oracle_lines, oracle_meta = [], {}
@@ -244,7 +247,14 @@ def run(ctx):
                            f"to_json returned text that is not JSON ({culprit(line)}): {line[:160]!r}",
                            dict(payload, line=line[:400], expected=ej[:400]))
                 break
-            if not same_value(a, py_json(ej)):
+            try:
+                want = py_json(ej)
+            except (ValueError, BadConst):
+                # the value holds a non-finite float: no JSON number denotes it; any well-formed text passes
+                n_json_ok += 1
+                n_nonfinite_wellformed += 1
+                continue
+            if not same_value(a, want):
                 bad = True
                 ctx.report({"oracle": "json", "kind": "wrong-structure"},
                            f"to_json's text does not decode to the value: {line[:160]!r} vs {ej[:160]!r}",
@@ -307,6 +317,48 @@ def run(ctx):
             else:
                 ctx.broken_ties.append(("jsonRead ≠ Python json on a printed line", f"{pid}: {line[:120]!r}: lean {c[:120]} python {pc[:120]}"))
 
+    # ---- witnesses of past failures and the corpus programs that use the derives
+    n_corpus = n_corpus_ok = n_recorded = n_recorded_ok = 0
+    for pid, d in progs.items():
+        if "corpus" not in d:
+            continue
+        n_corpus += 1
+        payload = {"id": pid, "src": d.get("src")}
+        if "panic" in d:
+            ctx.report({"oracle": "crash", "where": re.sub(r"\d+", "N", d["panic"])[:80]}, f"the compiler panics on {pid}: {d['panic'][:160]}", payload)
+            continue
+        if "reject" in d:
+            stage, msg = d["reject"]
+            payload["diagnostics"] = msg[:600]
+            ctx.report({"oracle": "accepted-definition-rejected", "stage": stage, "class": diag_class(msg)},
+                       f"a definition the derive accepts is rejected by generated code failing in `{stage}`: {msg[:200]}", payload)
+            continue
+        go = d["out"].get("go")
+        if go is None or go[0] != "ok":
+            ctx.report({"oracle": "run", "status": (go or ["?"])[0].split(":")[0]}, f"{pid} does not run to completion under Go.Sem: {go}", payload)
+            continue
+        got = vlib.unesc(go[1])
+        payload["stdout"] = got[:600]
+        good = True
+        for line in got.split("\n"):
+            if line.startswith("{"):
+                try:
+                    py_json(line)
+                except (ValueError, BadConst, RecursionError):
+                    good = False
+                    ctx.report({"oracle": "json", "kind": "not-json", "culprit": culprit(line)},
+                               f"to_json returned text that is not JSON ({culprit(line)}): {line[:160]!r}", dict(payload, line=line[:400]))
+                    break
+        if d["corpus"] is not None:
+            n_recorded += 1
+            if d["corpus"] == got:
+                n_recorded_ok += 1
+            else:
+                good = False
+                ctx.report({"oracle": "recorded-output", "program": pid}, "Go.Sem of the emitted Go differs from the output recorded from real Go",
+                           dict(payload, expected=d["corpus"][:600]))
+        n_corpus_ok += good
+
     # ---- %g: Sem.showFloat (used by Go.Sem and the model) vs Rust's shortest digits
     fres = run_model(ctx, [f"{fid}\t{sx}" for fid, sx, _ in floats]) if floats else {}
     n_flt_ok = n_flt_tie = 0
@@ -349,9 +401,12 @@ def run(ctx):
         "compiled": n_ok,
         "L1_text_comparisons": {"checked": n_l1, "equal_to_model": n_l1_ok, "core_under_Sem_equal": n_core_ok},
         "model_diffs": n_l1 - n_l1_ok,
-        "oracle_json_lines": {"checked": n_json_lines, "decode_to_value(python json vs serde_json)": n_json_ok},
+        "oracle_json_lines": {"checked": n_json_lines, "decode_to_value(python json vs serde_json)": n_json_ok,
+                              "of_which_only_wellformed(non-finite float inside)": n_nonfinite_wellformed},
         "oracle_to_string": {"checked": n_str, "equal_to_join_rendering": n_str_ok},
         "jsonRead_vs_python_json": {"lines": n_reader, "same_parse": n_reader_agree},
+        "corpus_and_witness_programs": {"programs": n_corpus, "ok": n_corpus_ok, "with_output_recorded_from_real_Go": n_recorded,
+                                        "recorded_output_reproduced": n_recorded_ok},
         "float_%g_cross_validation": {"floats": len(floats), "same_text": n_flt_ok,
                                       "of_which_exact_halfway_ties(Go: to even; Rust: up)": n_flt_tie},
         "reject_stream": {"programs": len(rej), "rejected_in_lower_or_typer": n_rej_ok,
